@@ -16,7 +16,7 @@ TRACE_ALL = "planted,linear,prio,contra,malformed,caps,collapsed"
 
 PROPS = {
     "C12": {
-        "modules": ["Ezpz.Proofs.Assembly", "Ezpz.Proofs.AssemblyPerm", "Ezpz.Proofs.Rename", "Ezpz.Real.GaussNewton", "Ezpz.Real.StopTests", "Ezpz.Properties.C10"],
+        "modules": ["Ezpz.Proofs.Assembly", "Ezpz.Proofs.AssemblyPerm", "Ezpz.Proofs.Rename", "Ezpz.Proofs.EquivHelpers", "Ezpz.Real.Equivariance", "Ezpz.Real.EquivarianceRenumber", "Ezpz.Real.GaussNewton", "Ezpz.Real.StopTests", "Ezpz.Properties.C10"],
         "suites": [
             {"suite": "kernels", "quick": (150,), "thorough": (3000,)},
             {"suite": "trace", "quick": (400, "planted,linear,prio,contra"), "thorough": (6000, "planted,linear,prio,contra,caps,conflict")},
@@ -24,7 +24,7 @@ PROPS = {
         "oracles": [
             {"bin": "oracle_c12", "quick": ("{seed}", "800"), "thorough": ("{seed}", "20000")},
         ],
-        "partial": ["solve_equivariant (the whole solve commutes with request permutations and variable renumberings, in exact arithmetic) is not assembled into one theorem: its ingredients are proved separately - the stacked residual / Jacobian of a permuted request list is the row-block permutation of the original (adjacent swaps with explicit row maps; multisets in general), renumbering maps columns and leaves rows, values, warnings, lint, validation and the unsatisfied sweep unchanged, the damped step is invariant under row permutations and equivariant under column permutations, the three stopping quantities depend only on multisets, and the priority levels do not depend on the listing order",
+        "partial": ["solve_equivariant is proved per priority level over the reals (solveInner_perm, solveInner_renumber, with newtonStep/newtonLoop versions): reordering the requests gives the same values, iterations, solved priority and under-constrained set, the same unsatisfied requests and warnings up to order (equal after sorting: unsatisfied_sorted_eq); renumbering the variables gives the reordered values and otherwise the identical outcome; the solver hypotheses (RowPermSolve, ColPermSolve) are shown to hold for exact total solvers (rowPermSolve_of_exact, colPermSolve_of_exact via step_row_perm / step_col_perm / step_unique). Not invariant, and stated so (solveInner_perm_invalid): which request a MissingGuess error names when several requests have missing guesses (first in list order). The renumbering theorem is for solve (no analysis); the priority loop on top is C03/C10 (levels do not depend on the order: level_order_independent)",
                     "'up to numerical noise': summation order inside faer changes with row / column order; left to the oracle on the real code (known finding F16: on inconsistent rank-deficient systems one order converges and another does not)"],
         "assumptions": ["the LU answer is a parameter; over the reals it is characterised by IsStep, which is what the permutation theorems are about"],
         "rule": "planted and linear systems; all request permutations for <= 4 requests, random samples otherwise; random variable renumberings with the guess list reordered to match; verdicts, solved priority and under-constrained sets must match exactly through the permutation, values of constrained variables within 1e-6*scale, under-constrained ones within 1e-2*scale with every constraint still satisfied",
